@@ -39,6 +39,22 @@ Definition mode_allows (cls : N) (name : str) : option bool :=
     else Some true
   else Some true.
 
+(* attempts named top.X use what the script's top-level chunk captured: they
+   are predicted from the graph dumped at load time *)
+Definition strip_top (name : str) : option str := strip_prefix (T "top.") name.
+
+Definition check_escape2 (g gtop : lgraph) (cls : N) (outcomes : list (str * bool)) : N :=
+  let pred := fun o => match strip_top (fst o) with
+                       | Some n => predict gtop cls n
+                       | None => predict g cls (fst o) end in
+  let allow := fun o => match strip_top (fst o) with
+                        | Some n => mode_allows cls n
+                        | None => mode_allows cls (fst o) end in
+  let agree := forallb (fun o => match pred o with Some b => Bool.eqb b (snd o) | None => false end) outcomes in
+  let spec := forallb (fun o => match allow o with Some b => Bool.eqb b (snd o) | None => false end) outcomes in
+  let both := existsb (fun o => match strip_top (fst o) with Some _ => true | None => false end) outcomes in
+  (if agree then 0 else 1) + (if spec && both then 0 else 2).
+
 (* outcomes: (attempt name, succeeded) *)
 Definition check_escape (g : lgraph) (cls : N) (outcomes : list (str * bool)) : N :=
   let agree := forallb (fun o => match predict g cls (fst o) with Some b => Bool.eqb b (snd o) | None => false end) outcomes in
